@@ -170,8 +170,20 @@ func (m *vxlanManager) OnUpdate(protoBufMsg any) {
 	case *proto.VXLANTunnelEndpointUpdate:
 		// Check to make sure that we are dealing with messages of the correct IP version.
 		if (m.ipVersion == 4 && msg.Ipv4Addr == "") || (m.ipVersion == 6 && msg.Ipv6Addr == "") {
-			// Skip since the update is for a mismatched IP version
+			// The update is for a mismatched IP version: the node has no VTEP of our IP version
+			// (any more).  Forget one that we learned from an earlier update, as for a remove.
 			m.logCtx.WithField("msg", msg).Debug("Skipping mismatched IP version update")
+			if msg.Node == m.hostname {
+				if m.getLocalVTEP() != nil {
+					m.setLocalVTEP(nil)
+					m.vtepsDirty = true
+					m.routeMgr.triggerRouteUpdate()
+				}
+			} else if _, ok := m.vtepsByNode[msg.Node]; ok {
+				delete(m.vtepsByNode, msg.Node)
+				m.vtepsDirty = true
+				m.routeMgr.triggerRouteUpdate()
+			}
 			return
 		}
 
